@@ -250,10 +250,6 @@ var sharedPool = []sharedRule{
 	{"bundle-id-never-reset", func(c *Ctx, r string) { checkBundleIDNeverReset(c, r) }},
 	{"trygo-handled", func(c *Ctx, r string) { checkTryGoHandled(c, r, "pkg/core", "pkg/cafs") }},
 	{"stages-forward-errors", func(c *Ctx, r string) { checkStagesForwardErrors(c, r) }},
-	{"leaf-loop-shape", func(c *Ctx, r string) { checkLeafReadLoopShape(c, r) }},
-	{"readat-loop-shape", func(c *Ctx, r string) { checkReadAtLoopShape(c, r) }},
-	{"prefetch-handoff", func(c *Ctx, r string) { checkPrefetchHandoff(c, r) }},
-	{"writer-write-shape", func(c *Ctx, r string) { checkWriterWriteShape(c, r) }},
 	{"writer-flush-shape", func(c *Ctx, r string) { checkWriterFlushShape(c, r) }},
 	{"guarded-core", func(c *Ctx, r string) { checkGuardedTable(c, r) }},
 	{"effects", func(c *Ctx, r string) {
